@@ -66,6 +66,7 @@ type World struct {
 	assumed   map[string]bool // names of assume-ext / trusted things used
 	distinct  map[string][]string
 	arrOfFns  []string
+	constSort map[string]string // sort name of every fresh constant
 	weak      map[string]bool // assumptions that are rarely needed (typing axioms): dropped in a retry
 }
 
@@ -128,6 +129,10 @@ func (w *World) declFun(name string, args []*Sort, res *Sort) {
 func (w *World) freshConst(base string, s *Sort) string {
 	n := w.freshName(base)
 	w.declared[n] = true
+	if w.constSort == nil {
+		w.constSort = map[string]string{}
+	}
+	w.constSort[n] = s.Name
 	w.decls = append(w.decls, fmt.Sprintf("(declare-const %s %s)", n, s.Name))
 	return n
 }
